@@ -2,7 +2,7 @@
 # Re-confirms every seeded change (demo passes on HEAD, patch applies/builds/suite passes, demo fails with it)
 # and runs the claimed property's quick check against it; then every one-line mutant of mutants/.
 # Writes seeded/RESULTS.txt. Usage: tools/selftest_all.sh [tier]
-cd /verif
+cd "$(dirname "$0")/.." || exit 2
 tier=${1:-quick}
 out=seeded/RESULTS.txt
 echo "# seeded changes and mutants vs checks (tier=$tier), $(date -u +%Y-%m-%dT%H:%MZ), /repo $(git -C /repo log --format=%h -1)" > $out
